@@ -176,11 +176,9 @@ def run(module: str, cfg: str, *, workers: int = 16, env: dict | None = None, ti
     res["finished"] = "Model checking completed" in out or "Finished in" in out or "Finished computing" in out
     if p.returncode == 124:
         raise TlcFailure("TLC timed out after %ds: %s" % (timeout, res["cmd"]))
-    if ("Parsing or semantic analysis failed" in out or "Error: " in out and not res["violated"]
-            and "is violated" not in out and "Deadlock reached" not in out):
-        if "Error: " in out and "Invariant" not in out and "evaluat" in out or "Parsing or semantic" in out or "TLC threw" in out \
-                or "was not found" in out or "Unknown operator" in out:
-            raise TlcFailure("TLC error in %s/%s:\n%s" % (module, cfg, out[-3000:]))
+    # TLC exit codes: 0 ok, 10/11 assumption/deadlock, 12 safety violation, 13 liveness violation; anything else = error
+    if p.returncode not in (0, 12, 13):
+        raise TlcFailure("TLC error (rc=%d) in %s/%s:\n%s" % (p.returncode, module, cfg, out[-3000:]))
     if coverage:
         cov = {}
         for mm in re.finditer(r"^<(\w+) line [^>]*>: (\d+):(\d+)", out, re.M):
